@@ -1,0 +1,47 @@
+//go:build verif
+// +build verif
+
+package router
+
+// Add-only exports for the verification harness in /verif (build tag verif, property C10).
+
+// VerifTableToSlice returns a copy of the table index -> slice index map of a rule
+// (of the rule it links to, for a linked rule).
+func VerifTableToSlice(r Rule) map[int]int {
+	var b *BaseRule
+	switch v := r.(type) {
+	case *BaseRule:
+		b = v
+	case *LinkedRule:
+		b = v.linkToRule
+	}
+	if b == nil {
+		return nil
+	}
+	out := make(map[int]int, len(b.tableToSlice))
+	for k, v := range b.tableToSlice {
+		out[k] = v
+	}
+	return out
+}
+
+// VerifLinkTarget returns the (db, table) a linked rule links to; ok is false
+// for any other rule.
+func VerifLinkTarget(r Rule) (db, table string, ok bool) {
+	if l, isLinked := r.(*LinkedRule); isLinked {
+		return l.linkToRule.db, l.linkToRule.table, true
+	}
+	return "", "", false
+}
+
+// VerifMycatDatabases returns the physical database list of a rule (nil when the
+// rule keeps none).
+func VerifMycatDatabases(r Rule) []string {
+	switch v := r.(type) {
+	case *BaseRule:
+		return v.mycatDatabases
+	case *LinkedRule:
+		return v.linkToRule.mycatDatabases
+	}
+	return nil
+}
